@@ -125,8 +125,8 @@ def nontrivial(tab):
     return not (all(r == 0 for r in rows) or all(r == full for r in rows))
 
 
-def suite(rng, tier, *, exh_quick=9, exh_thorough=12, rand_quick=400, rand_thorough=6000,
-          wide_quick=40, wide_thorough=400, nmax=9, mmax=9):
+def suite(rng, tier, *, exh_quick=10, exh_thorough=14, rand_quick=400, rand_thorough=15000,
+          wide_quick=40, wide_thorough=1000, nmax=9, mmax=9):
     """The shared stream of contexts for lattice-level properties."""
     exh = exh_quick if tier == 'quick' else exh_thorough
     yield from exhaustive(exh)
